@@ -68,7 +68,9 @@ type c14Peer struct {
 
 func c14PeerIdentity(name string, idx int, shared bool) (broadcast string, tcpPort, httpPort int) {
 	if shared {
-		return "nX", 4150 + 10*idx, 4999 // one and the same broadcast_address:http_port
+		// one and the same broadcast_address, tcp_port and http_port: the same nsqd seen over two connections
+		// (it reconnected before the old connection was noticed dead); only the hostname tells them apart here
+		return "nX", 4150, 4999
 	}
 	return name, 4150 + 10*idx, 5161 + 7*idx
 }
@@ -523,7 +525,13 @@ func c14QueryDebug(h *c14HTTP, idn *c14Identity) ([]c14DebugObs, []string, error
 		for _, e := range plist {
 			name, ok := idn.nameOf(e.ID)
 			if !ok || name != e.Hostname {
-				name = "?id=" + e.ID + "/" + e.Hostname
+				if idn.byHost[e.Hostname] != nil {
+					// one of this run's producers under a key the harness did not predict (the registry's internal
+					// key is not part of what the property speaks about): still that producer, not a stranger
+					name = e.Hostname
+				} else {
+					name = "?id=" + e.ID + "/" + e.Hostname
+				}
 			}
 			if parts[0] == "client" {
 				clients = append(clients, name)
